@@ -167,6 +167,11 @@ fn import_extension_fields(node: &mut Node, doc: &mut RustDocument, base_fields:
             if n.tag_name().name() == "sequence" {
                 import_sequence_node_fields(&mut base, doc, base_fields)?;
             }
+
+            // attributes declared by the extension itself
+            if n.tag_name().name() == "attribute" {
+                base_fields.push(Field::try_from_node(n, doc)?);
+            }
         }
     }
     Ok(())
